@@ -57,6 +57,28 @@ def run_valgrind(path, timeout=300):
     return bad, r.stdout[-3000:]
 
 
+def run_miri(path, timeout=900):
+    """Data races cannot show natively on x86: the replayed schedule is run under Miri (nightly), whose C11
+    vector-clock detector judges the real code. The gate's own atomics are Relaxed, so they add no
+    happens-before edges of their own."""
+    flavor, feats = read_header(path)
+    env = dict(os.environ)
+    env['CARGO_NET_OFFLINE'] = 'true'
+    env['RUSTFLAGS'] = '--cfg arc_swap_verif'
+    env['MIRIFLAGS'] = '-Zmiri-disable-isolation -Zmiri-ignore-leaks'
+    cmd = ['cargo', '+nightly', 'miri', 'run', '--offline', '--profile', build.NATIVE_PROFILES[flavor],
+           '--features', ','.join(['native'] + list(feats)), '--bin', 'vh-native',
+           '--manifest-path', os.path.join(build.HARNESS, 'Cargo.toml'), '--target-dir', os.path.join(build.BUILD, 'miri'),
+           '--', path]
+    build.write_registry()
+    try:
+        r = subprocess.run(cmd, env=env, stdout=subprocess.PIPE, stderr=subprocess.STDOUT, text=True, timeout=timeout)
+    except subprocess.TimeoutExpired:
+        return False, 'miri timed out'
+    keep = [l for l in r.stdout.split('\n') if not l.startswith('warning') and l.strip()]
+    return 'Data race detected' in r.stdout, '\n'.join(keep)[-2500:]
+
+
 def run_native(path, timeout=60, trace=False):
     """Returns dict: exit, out, panics [(file:line, msg)], assert_fails [ids], stuck, done."""
     flavor, feats = read_header(path)
@@ -109,6 +131,10 @@ def reproduces(violation, res):
             res['out'] = (res.get('out') or '') + '\n--- valgrind ---\n' + log
             return bad
         return False
+    if k == 'race':
+        bad, log = run_miri(res['path'])
+        res['out'] = (res.get('out') or '') + '\n--- miri ---\n' + log
+        return bad
     if k == 'blocking' or k == 'bound':
         return res['hung']
     return False
